@@ -35,6 +35,7 @@ Null = _mk("Null", [])
 Bool = _mk("Bool", ["b"])
 Int = _mk("Int", ["n"])                  # |n| <= 2**63-1 ; negative => literal minus
 Str = _mk("Str", ["s"])                  # s: python str (decoded characters)
+StrLit = _mk("StrLit", ["src", "s"])     # exact source spelling between the quotes + decoded value
 IStr = _mk("IStr", ["parts"])            # parts: list of str | Node (slot expression)
 RawSlot = _mk("RawSlot", ["text"])      # interpolation slot given as raw source text
 Var = _mk("Var", ["name"])
